@@ -33,17 +33,12 @@ PY = sys.executable
 
 TIERS = {
     "quick": {"budget": 25, "nb_cap": 10**6, "variants": 3, "hang": 900},
-    "thorough": {"budget": 600, "nb_cap": 10**6, "variants": 4, "hang": 4000, "strided_njit": True},
+    "thorough": {"budget": 600, "nb_cap": 10**6, "variants": 4, "hang": 4000},
 }
-
-
-STRIDED_NJIT = [False]
 
 
 def variant_env(v):
     env = dict(os.environ)
-    if STRIDED_NJIT[0]:
-        env["C14_STRIDED_NJIT"] = "1"
     env["NUMBA_BOUNDSCHECK"] = "1"
     env["PYTHONHASHSEED"] = "0"
     env["NUMBA_NUM_THREADS"] = "2"
@@ -223,7 +218,6 @@ def main():
     conf = dict(TIERS[tier])
     if args.budget:
         conf["budget"] = args.budget
-    STRIDED_NJIT[0] = bool(conf.get("strided_njit"))
     t0 = time.monotonic()
     print(f"C14 check: tier={tier} VERIF_SEED={seed} repo={repo} nproc={args.nproc}")
     sys.stdout.flush()
